@@ -163,6 +163,10 @@ LEDGER_STATEMENTS = [
     ('SELECT DISTINCT root(account, 1) ORDER BY account_sortkey(root(account, 1))', ['root(account, 1)']),
     ('SELECT meta["note"], entry.meta["ref"], position.units.number FROM #postings', ['meta["note"]', 'entry.meta["ref"]', 'position.units.number']),
     ('SELECT a, b + 1 FROM (SELECT number AS a, year AS b, account FROM #postings ORDER BY lineno) ORDER BY account', ['a', 'b + 1']),
+    ('SELECT DISTINCT account, balance ORDER BY lineno DESC', ['account', 'balance']),
+    ('SELECT DISTINCT account, sum(position) AS s GROUP BY account, year ORDER BY year DESC, count(*)', ['account', 's']),
+    ('SELECT DISTINCT payee, meta, entry_meta("note") FROM #postings ORDER BY date DESC LIMIT 7', ['payee', 'meta', 'entry_meta("note")']),
+    ('SELECT DISTINCT meta["note"] AS n, tags FROM #transactions ORDER BY narration', ['n', 'tags']),
 ]
 
 
@@ -199,8 +203,8 @@ def ledger_part(ctx):
             ctx.count('obs.ledger_statements')
             if got != names:
                 ctx.violation('c07.names', f'{text}: names {got} expected {names}', {'text': text})
-            if any(len(r) != len(names) for r in rows):
-                ctx.violation('c07.row_shape', f'{text}: row length differs from description', {'text': text})
+            if any(len(r) != len(names) or not isinstance(r, tuple) for r in rows):
+                ctx.violation('c07.row_shape', f'{text}: a row is not a tuple of one value per described column', {'text': text})
         for tname, table in conn.tables.items():
             if not tname:
                 continue
